@@ -12,6 +12,7 @@ changes).  All recursion is accepted by Lean's termination checker without fuel.
 import QsmtpModel.Lemmas.QrQp
 import QsmtpModel.Lemmas.QrLegal
 import QsmtpModel.Lemmas.QrNoHang
+import QsmtpModel.Lemmas.QrNoFault
 
 set_option linter.unusedSimpArgs false
 
@@ -62,6 +63,13 @@ final blank, or the byte taken by a soft line break), never writes outside its 1
 buffer and never stalls, for any input. -/
 theorem recode_qp_no_fault (b : List Byte) (st0 : St) : ∃ st, recodeQp b st0 = .ok st :=
   recodeQp_ok b st0
+
+/-- wrap_header() — with send_wrapped() and wrap_line(), the header folding of the recoding path —
+never reads outside the header text it was given (the downward and upward blank searches of
+wrap_line() stay inside a line of at least 970 bytes), never writes outside the 1048 byte staging
+buffer (a buffer that cannot take the next piece is flushed first) and never stalls, for any input. -/
+theorem wrap_header_no_fault (h : List Byte) (st0 : St) : ∃ st, wrapHeader h st0 = .ok st :=
+  wrapHeader_ok h st0
 
 /-- need_recode() is sound: no `recode_long_*` flag ⇒ every line, the last unterminated one
 included, has at most 998 bytes; no `recode_8bit` flag ⇒ every byte is in 1..127. (All its reads
